@@ -8,6 +8,7 @@ package main
 
 import (
 	"fmt"
+	"hash/fnv"
 	"go/token"
 	"go/types"
 	"sort"
@@ -122,6 +123,11 @@ func rulePanic(p *Prog, r *Report, sp panicSpec) {
 			}
 			sites++
 			r.Sites++
+			if len(desc) > 96 {
+				h := fnv.New32a()
+				_, _ = h.Write([]byte(desc))
+				desc = fmt.Sprintf("%s…~%08x", desc[:80], h.Sum32())
+			}
 			key := fmt.Sprintf("%s.%s#%s", sp.Key, shortFn(fn), desc)
 			if ok {
 				byGuard[how]++
